@@ -10,7 +10,7 @@ from . import common
 
 PROP = "C18"
 KQ = ("NL", "CE", "J", "W0")
-KT = KQ + ('CO', 'BL', 'W3')
+KT = KQ + ('CO', 'W3')
 
 
 def nonempty(dMap):
